@@ -547,3 +547,32 @@ ANY_INDEF = Contract(
     may_raise={'PyAsn1Error': True, 'EndOfStreamError': True},
     external=['captures-header-fragments-and-marker', 'one-result'])
 CONTRACTS = CONTRACTS + [ANY_INDEF]
+
+
+# ... collected as a fragment of an enclosing capture (an indefinite-length element inside an indefinite-length ANY): the raw
+# octets handed up are the element's complete encoding as well -- header, fragments, and its own end-of-octets
+def _any_indef_fragment_params():
+    p = _any_indef_params()
+    collector = FnV(lambda ex, *a, **k: None, 'substrateCollector')
+    p['self'] = PObj('AnyPayloadDecoder', methods={'_createComponent': create_component},
+                     protoComponent=PConst(Obj('Any', {}, name='protoComponent')), substrateCollector=PConst(collector))
+    p['substrateFun'] = PConst(collector)
+    return p
+
+
+ANY_INDEF_FRAGMENT = Contract(
+    id='ber.decoder::AnyPayloadDecoder.indefLenValueDecoder[untagged,as-fragment,complete]', file=D,
+    qual='AnyPayloadDecoder.indefLenValueDecoder', properties=['C18', 'C09', 'C02', 'C01'], is_generator=True,
+    params=_any_indef_fragment_params(), globals=ANY_INDEF.globals,
+    calls={'readFromStream': _read_model('complete'), 'decodeFun': _any_fragment},
+    loops={2: Loop(invariant=['not value_yielded()', 'isinstance(chunk, bytes)', 'substrate.fragsOk',
+                              'chunk == X.cat(X.sub(substrate.data, mark, old(substrate.pos)), substrate.frags)',
+                              'substrate.pos >= old(substrate.pos)'],
+                   havoc_fields=['substrate.pos', 'substrate.frags', 'substrate.fragsOk'])},
+    yield_ensures=[
+        ('fragment-is-the-complete-element', 'y == X.cat(X.sub(substrate.data, mark, old(substrate.pos)), substrate.frags, '
+                                             'X.seq(0, 0)) and substrate.fragsOk')],
+    exit_ensures=[('one-result', 'nyields() == 1')],
+    may_raise={'PyAsn1Error': True, 'EndOfStreamError': True},
+    external=['fragment-is-the-complete-element', 'one-result'])
+CONTRACTS = CONTRACTS + [ANY_INDEF_FRAGMENT]
